@@ -122,6 +122,8 @@ def group_of(cls: str) -> str:
         return "sign"
     if "empty" in cls:
         return "empty_part"
+    if cls in ("lowercase_s", "long_s_U+017F", "two_digit_revision", "hex_authority", "trailing_letter", "no_authority", "bare_s", "sddl_alias", "junk"):
+        return "not_sid_syntax"
     return cls
 
 
@@ -205,16 +207,18 @@ def near_misses(ctx: Ctx) -> list[tuple[str, str, str]]:
         # --- don't care: the statement does not name these; any outcome is fine
         add("dontcare", "leading_zero_sub", "-".join(parts[:-1] + ["0" + parts[-1]]))
         add("dontcare", "leading_zero_auth", "-".join(parts[:2] + ["00" + parts[2]] + parts[3:]))
-        add("dontcare", "lowercase_s", "s" + base[1:])
-        add("dontcare", "two_digit_revision", "-".join([parts[0], "1" + parts[1]] + parts[2:]))
-        add("dontcare", "hex_authority", "-".join(parts[:2] + ["0x5"] + parts[3:]))
-        add("dontcare", "trailing_letter", base + "x")
-        add("dontcare", "no_authority", "S-" + str(r))
+        # --- other strings that are plainly not a canonical SID (general clause of the statement: rejected, not silently altered)
+        add("reject", "lowercase_s", "s" + base[1:])
+        add("reject", "long_s_U+017F", "\u017f" + base[1:])          # matches 'S' under a Unicode case-insensitive match
+        add("reject", "two_digit_revision", "-".join([parts[0], "1" + parts[1]] + parts[2:]))
+        add("reject", "hex_authority", "-".join(parts[:2] + ["0x5"] + parts[3:]))
+        add("reject", "trailing_letter", base + "x")
+        add("reject", "no_authority", "S-" + str(r))
     for s in ("", "S-", "-", "--", "S--", "S-1-", "S-1--"):
         add("reject", "degenerate_empty_parts", s)
-    add("dontcare", "bare_s", "S")
-    add("dontcare", "sddl_alias", "SY")
-    add("dontcare", "junk", "hello")
+    add("reject", "bare_s", "S")
+    add("reject", "sddl_alias", "SY")
+    add("reject", "junk", "hello")
     seen: set[str] = set()
     res = []
     for w, c, s in out:
